@@ -1,6 +1,600 @@
-//! C08 — not built yet (stub; replaced by the real check).
+//! C08 — PSET and transaction views agree; unique id and lock time follow BIP370.
+use elements::confidential::{Asset, Nonce, Value};
+use elements::hashes::Hash as _;
+use elements::pset::{Input, Output, PartiallySignedTransaction as Pset};
+use elements::secp256k1_zkp::ZERO_TWEAK;
+use elements::{locktime, AssetIssuance, LockTime, OutPoint, Script, Sequence, Transaction, TxIn, TxInWitness, TxOut, TxOutWitness};
+use serde_json::json;
+
 use crate::engine::*;
+use crate::gen::pset::{self as gp, PsetOpts};
+use crate::gen::{self, pool, TxOpts};
+use crate::refimpl::{enc, sha256::sha256d};
+use crate::{ensure, ensure_eq};
+
+pub const KF_NONCE_LOST: &str = "from-tx-extract-tx-loses-nonce-of-explicit-output";
+pub const KF_COINBASE_PEGIN: &str = "extract-tx-marks-coinbase-index-as-pegin";
+pub const KF_LOCKTIME_PREF: &str = "locktime-prefers-time-over-height";
+pub const KF_UID_SCRIPTSIG: &str = "unique-id-depends-on-final-script-sig";
+
+// ---- (a) transaction -> PSET -> transaction ------------------------------------------------
+
+fn tx_roundtrip(t: &mut Tape, ctx: &mut Ctx) -> R {
+    let o = TxOpts { big: false, wellformed: true, ..TxOpts::default() };
+    let tx = gen::gen_tx(t, &o);
+    let pset = guard::guard("from_tx", 0, || Pset::from_tx(tx.clone()))?;
+    let back = guard::guard("extract_tx", 0, || pset.extract_tx())?;
+    ctx.eval();
+    let back = match back {
+        Ok(b) => b,
+        Err(e) => return Err(Failure::new(format!("extract_tx(from_tx(tx)) failed: {} for {:?}", e, tx))),
+    };
+    if back != tx {
+        // classify the difference
+        let mut patched = back.clone();
+        let mut nonce_only = false;
+        let mut coinbase_only = false;
+        if patched.output.len() == tx.output.len() {
+            for (b, a) in patched.output.iter_mut().zip(tx.output.iter()) {
+                let explicit_plain = a.asset.is_explicit() && a.value.is_explicit() && a.witness.is_empty();
+                if b.nonce != a.nonce && b.nonce == Nonce::Null && a.nonce.is_confidential() && explicit_plain {
+                    b.nonce = a.nonce;
+                    nonce_only = true;
+                }
+            }
+        }
+        if patched.input.len() == tx.input.len() {
+            for (b, a) in patched.input.iter_mut().zip(tx.input.iter()) {
+                if a.previous_output.vout == u32::MAX && !a.is_pegin && b.is_pegin {
+                    b.is_pegin = false;
+                    coinbase_only = true;
+                }
+            }
+        }
+        let explained = patched == tx;
+        let mut suppressed = explained;
+        if explained && nonce_only && !ctx.is_known(KF_NONCE_LOST) {
+            suppressed = false;
+        }
+        if explained && coinbase_only && !ctx.is_known(KF_COINBASE_PEGIN) {
+            suppressed = false;
+        }
+        if !suppressed {
+            return Err(Failure::new(format!(
+                "extract_tx(from_tx(tx)) != tx{}\n tx  ={:?}\n back={:?}",
+                if explained { format!(" (difference: {}{})", if nonce_only { "nonce of an explicit output lost " } else { "" }, if coinbase_only { "index 0xffffffff input marked as pegin" } else { "" }) } else { String::new() },
+                tx,
+                back
+            )));
+        }
+    }
+    let feats = gen::tx_features(&tx);
+    for f in &feats {
+        ctx.class(&format!("feature:{}", f));
+    }
+    if feats.iter().any(|f| ["pegin", "issuance", "reissuance", "conf-value", "conf-asset", "in-witness", "out-witness"].contains(f)) {
+        ctx.nontrivial(&enc::tx_full(&tx));
+    }
+    if ctx.wants_sample("tx") && feats.len() >= 3 {
+        ctx.sample("tx", || json!({"inputs": tx.input.len(), "outputs": tx.output.len(), "features": feats}));
+    }
+    Ok(())
+}
+
+// ---- reference extraction and lock-time selection -------------------------------------------
+
+#[derive(Debug, PartialEq, Eq, Clone, Copy)]
+pub enum RefLock {
+    Ok(u32),
+    Conflict,
+}
+
+/// BIP370: fallback (or 0) when nothing constrains; else the maximum of the kind every constraining
+/// input supports, height preferred when both are possible; conflict otherwise
+pub fn ref_locktime(reqs: &[(Option<u32>, Option<u32>)], fallback: Option<u32>) -> RefLock {
+    let constraining: Vec<&(Option<u32>, Option<u32>)> = reqs.iter().filter(|(t, h)| t.is_some() || h.is_some()).collect();
+    if constraining.is_empty() {
+        return RefLock::Ok(fallback.unwrap_or(0));
+    }
+    let height_ok = constraining.iter().all(|(_, h)| h.is_some());
+    let time_ok = constraining.iter().all(|(t, _)| t.is_some());
+    if height_ok {
+        RefLock::Ok(constraining.iter().filter_map(|(_, h)| *h).max().unwrap_or(0))
+    } else if time_ok {
+        RefLock::Ok(constraining.iter().filter_map(|(t, _)| *t).max().unwrap_or(0))
+    } else {
+        RefLock::Conflict
+    }
+}
+
+fn pset_lock_reqs(p: &Pset) -> Vec<(Option<u32>, Option<u32>)> {
+    p.inputs().iter().map(|i| (i.required_time_locktime.map(|t| t.to_consensus_u32()), i.required_height_locktime.map(|h| h.to_consensus_u32()))).collect()
+}
+
+/// field-by-field reference extraction; None when the PSET cannot be extracted
+/// `coinbase_pegin_flag`: reproduce the library's treatment of index 0xffffffff when that finding is listed
+fn ref_extract(p: &Pset, unsigned: bool) -> Option<Transaction> {
+    let lock = match ref_locktime(&pset_lock_reqs(p), p.global.tx_data.fallback_locktime.map(|l| l.to_consensus_u32())) {
+        RefLock::Ok(n) => n,
+        RefLock::Conflict => return None,
+    };
+    let mut input = Vec::new();
+    for i in p.inputs() {
+        let raw = i.previous_output_index;
+        let (vout, is_pegin) = if raw == u32::MAX { (raw, false) } else { (raw & 0x3fff_ffff, raw & (1 << 30) != 0) };
+        let amount = match (i.issuance_value_amount, i.issuance_value_comm) {
+            (_, Some(c)) => Value::Confidential(c),
+            (Some(x), None) => Value::Explicit(x),
+            (None, None) => Value::Null,
+        };
+        let keys = match (i.issuance_inflation_keys, i.issuance_inflation_keys_comm) {
+            (_, Some(c)) => Value::Confidential(c),
+            (Some(x), None) => Value::Explicit(x),
+            (None, None) => Value::Null,
+        };
+        input.push(TxIn {
+            previous_output: OutPoint { txid: i.previous_txid, vout },
+            is_pegin,
+            script_sig: if unsigned { Script::new() } else { i.final_script_sig.clone().unwrap_or_default() },
+            sequence: if unsigned { Sequence(0) } else { i.sequence.unwrap_or(Sequence::MAX) },
+            asset_issuance: AssetIssuance {
+                asset_blinding_nonce: i.issuance_blinding_nonce.unwrap_or(ZERO_TWEAK),
+                asset_entropy: i.issuance_asset_entropy.unwrap_or([0u8; 32]),
+                amount,
+                inflation_keys: keys,
+            },
+            witness: if unsigned {
+                TxInWitness::empty()
+            } else {
+                TxInWitness {
+                    amount_rangeproof: i.issuance_value_rangeproof.clone(),
+                    inflation_keys_rangeproof: i.issuance_keys_rangeproof.clone(),
+                    script_witness: i.final_script_witness.clone().unwrap_or_default(),
+                    pegin_witness: i.pegin_witness.clone().unwrap_or_default(),
+                }
+            },
+        });
+    }
+    let mut output = Vec::new();
+    for o in p.outputs() {
+        let asset = match (o.asset_comm, o.asset) {
+            (Some(g), _) => Asset::Confidential(g),
+            (None, Some(a)) => Asset::Explicit(a),
+            (None, None) => return None,
+        };
+        let value = match (o.amount_comm, o.amount) {
+            (Some(c), _) => Value::Confidential(c),
+            (None, Some(v)) => Value::Explicit(v),
+            (None, None) => return None,
+        };
+        output.push(TxOut {
+            asset,
+            value,
+            nonce: o.ecdh_pubkey.map_or(Nonce::Null, |k| Nonce::Confidential(k.inner)),
+            script_pubkey: o.script_pubkey.clone(),
+            witness: if unsigned { TxOutWitness::empty() } else { TxOutWitness { surjection_proof: o.asset_surjection_proof.clone(), rangeproof: o.value_rangeproof.clone() } },
+        });
+    }
+    Some(Transaction { version: p.global.tx_data.version, lock_time: LockTime::from_consensus(lock), input, output })
+}
+
+/// compare a library extraction with the reference, tolerating only the listed coinbase-pegin finding
+fn same_extraction(lib: &Transaction, want: &Transaction, ctx: &mut Ctx) -> bool {
+    if lib == want {
+        return true;
+    }
+    let mut patched = lib.clone();
+    let mut any = false;
+    if patched.input.len() == want.input.len() {
+        for (b, a) in patched.input.iter_mut().zip(want.input.iter()) {
+            if a.previous_output.vout == u32::MAX && b.is_pegin && !a.is_pegin {
+                b.is_pegin = false;
+                any = true;
+            }
+        }
+    }
+    any && &patched == want && ctx.is_known(KF_COINBASE_PEGIN)
+}
+
+fn extraction(t: &mut Tape, ctx: &mut Ctx) -> R {
+    let extractable = t.chance(200);
+    let p = gp::gen_pset(t, &PsetOpts { extractable, ..PsetOpts::default() });
+    let a = guard::guard("extract_tx", 0, || p.extract_tx())?;
+    let b = guard::guard("extract_tx", 0, || p.extract_tx())?;
+    ctx.eval();
+    let want = ref_extract(&p, false);
+    match (&a, &b) {
+        (Ok(x), Ok(y)) => ensure!(x == y, "extract_tx is not deterministic"),
+        (Err(_), Err(_)) => {}
+        _ => return Err(Failure::new("extract_tx succeeds once and fails once on the same PSET".to_string())),
+    }
+    match (&a, &want) {
+        (Ok(x), Some(w)) => {
+            if !same_extraction(x, w, ctx) {
+                // lock-time preference finding
+                let mut y = x.clone();
+                y.lock_time = w.lock_time;
+                if same_extraction(&y, w, ctx) && x.lock_time != w.lock_time && both_kinds_possible(&p) && ctx.is_known(KF_LOCKTIME_PREF) {
+                    ctx.class("known:locktime-preference");
+                } else {
+                    return Err(Failure::new(format!("extract_tx does not reflect the PSET's fields\n lib ={:?}\n want={:?}", x, w)));
+                }
+            }
+        }
+        (Err(_), None) => {}
+        (Ok(x), None) => return Err(Failure::new(format!("extract_tx succeeded where the fields do not determine a transaction (lock-time conflict): {:?}", x.lock_time))),
+        (Err(e), Some(_)) => return Err(Failure::new(format!("extract_tx failed on an extractable PSET: {}", e))),
+    }
+    ctx.class(if a.is_ok() { "extraction:ok" } else { "extraction:err" });
+    let feats = gp::pset_features(&p);
+    if a.is_ok() && !feats.is_empty() {
+        ctx.nontrivial(&elements::encode::serialize(&p));
+    }
+    Ok(())
+}
+
+fn both_kinds_possible(p: &Pset) -> bool {
+    let r = pset_lock_reqs(p);
+    let c: Vec<_> = r.iter().filter(|(t, h)| t.is_some() || h.is_some()).collect();
+    !c.is_empty() && c.iter().all(|(t, h)| t.is_some() && h.is_some())
+}
+
+// ---- (c) unique id under updater / signer / finalizer histories ------------------------------
+
+fn ref_unique_id(p: &Pset) -> Option<[u8; 32]> {
+    ref_extract(p, true).map(|tx| sha256d(&enc::tx_stripped(&tx)))
+}
+
+const N_OPS: usize = 16;
+/// id-neutral field additions / changes; returns the label
+fn apply_op(t: &mut Tape, p: &mut Pset, op: usize) -> Option<&'static str> {
+    let pl = pool();
+    let nin = p.inputs().len();
+    let nout = p.outputs().len();
+    match op {
+        0..=11 => {
+            if nin == 0 {
+                return None;
+            }
+            let k = t.below(nin);
+            let i: &mut Input = &mut p.inputs_mut()[k];
+            Some(match op {
+                0 => {
+                    i.sequence = Some(Sequence(t.edgy_u32()));
+                    "set-sequence"
+                }
+                1 => {
+                    let l = t.range(1, 72);
+                    i.partial_sigs.insert(gp::gen_btc_key(t), t.bytes(l));
+                    "add-partial-sig"
+                }
+                2 => {
+                    i.tap_key_sig = Some(gp::gen_schnorr_sig(t));
+                    "set-tap-key-sig"
+                }
+                3 => {
+                    i.tap_script_sigs.insert((gp::gen_xonly(t), gp::gen_leaf_hash(t)), gp::gen_schnorr_sig(t));
+                    "add-tap-script-sig"
+                }
+                4 => {
+                    i.final_script_sig = Some(gen::gen_script(t, false));
+                    "set-final-script-sig(finalizer)"
+                }
+                5 => {
+                    i.final_script_witness = Some(gen::gen_stack(t, false));
+                    "set-final-script-witness(finalizer)"
+                }
+                6 => {
+                    i.redeem_script = Some(gen::gen_script(t, false));
+                    i.witness_script = Some(gen::gen_script(t, false));
+                    "set-scripts"
+                }
+                7 => {
+                    i.bip32_derivation.insert(gp::gen_btc_key(t), gp::gen_key_source(t));
+                    i.tap_key_origins.insert(gp::gen_xonly(t), (vec![gp::gen_leaf_hash(t)], gp::gen_key_source(t)));
+                    "add-key-derivations"
+                }
+                8 => {
+                    i.witness_utxo = Some(gen::gen_txout(t, &TxOpts { big: false, witness: false, ..TxOpts::default() }));
+                    if t.bool() {
+                        i.non_witness_utxo = Some(gp::gen_small_tx(t));
+                    }
+                    "set-utxos"
+                }
+                9 => {
+                    i.sighash_type = Some(t.choose(&gp::SCHNORR_TYPES).into());
+                    "set-sighash-type"
+                }
+                10 => {
+                    i.amount = Some(t.edgy_u64());
+                    i.asset = Some(gen::gen_asset_id(t));
+                    i.blind_value_proof = Some(Box::new(pl.rangeproofs[t.below(pl.rangeproofs.len())].clone()));
+                    i.blind_asset_proof = Some(Box::new(pl.surjproofs[t.below(pl.surjproofs.len())].clone()));
+                    "set-input-explicit-value-proofs"
+                }
+                _ => {
+                    i.tap_internal_key = Some(gp::gen_xonly(t));
+                    if let Some(cb) = gp::gen_control_block(t) {
+                        i.tap_scripts.insert(cb, (gen::gen_script(t, false), gp::gen_leaf_version(t)));
+                    }
+                    "add-tap-scripts"
+                }
+            })
+        }
+        12..=14 => {
+            if nout == 0 {
+                return None;
+            }
+            let k = t.below(nout);
+            let o: &mut Output = &mut p.outputs_mut()[k];
+            Some(match op {
+                12 => {
+                    o.bip32_derivation.insert(gp::gen_btc_key(t), gp::gen_key_source(t));
+                    o.redeem_script = Some(gen::gen_script(t, false));
+                    "output-scripts-derivations"
+                }
+                13 => {
+                    // explicit value / asset proof fields next to existing commitments
+                    o.blind_value_proof = Some(Box::new(pl.rangeproofs[t.below(pl.rangeproofs.len())].clone()));
+                    o.blind_asset_proof = Some(Box::new(pl.surjproofs[t.below(pl.surjproofs.len())].clone()));
+                    if o.amount_comm.is_some() && o.amount.is_none() {
+                        o.amount = Some(t.edgy_u64());
+                    }
+                    if o.asset_comm.is_some() && o.asset.is_none() {
+                        o.asset = Some(gen::gen_asset_id(t));
+                    }
+                    "output-explicit-value-proofs"
+                }
+                _ => {
+                    o.tap_internal_key = Some(gp::gen_xonly(t));
+                    if let Some((tt, _)) = gp::gen_tap_tree(t, 4) {
+                        o.tap_tree = Some(tt);
+                    }
+                    "output-tap-fields"
+                }
+            })
+        }
+        _ => {
+            let l = t.below(8);
+            p.global.proprietary.insert(gp::gen_prop_key(t, 0), t.bytes(l));
+            p.global.xpub.insert(gp::gen_xpub(t), gp::gen_key_source(t));
+            Some("global-xpub-proprietary")
+        }
+    }
+}
+
+fn unique_id_histories(t: &mut Tape, ctx: &mut Ctx) -> R {
+    let mut p = gp::gen_pset(t, &PsetOpts { extractable: true, ..PsetOpts::default() });
+    // drop lock-time conflicts and keep it non-empty enough to be interesting
+    if p.inputs().is_empty() {
+        p.add_input(gp::gen_input(t, 60));
+        p.inputs_mut()[0].required_time_locktime = None;
+    }
+    let uid = |p: &Pset| guard::guard("unique_id", 0, || p.unique_id().map(|x| x.to_byte_array()));
+    let id0 = match uid(&p)? {
+        Ok(i) => i,
+        Err(e) => return Err(Failure::new(format!("unique_id failed on an extractable PSET: {}", e))),
+    };
+    ctx.eval();
+    let check_ref = |p: &Pset, id: &[u8; 32], ctx: &mut Ctx, what: &str| -> R {
+        match ref_unique_id(p) {
+            Some(w) => {
+                if &w != id {
+                    // tolerate only the listed lock-time preference finding (the id commits to the lock time)
+                    if both_kinds_possible(p) && ctx.is_known(KF_LOCKTIME_PREF) {
+                        return Ok(());
+                    }
+                    let has_sig = p.inputs().iter().any(|i| i.final_script_sig.as_ref().map_or(false, |s| !s.is_empty()));
+                    if has_sig && ctx.is_known(KF_UID_SCRIPTSIG) {
+                        return Ok(());
+                    }
+                    return Err(Failure::new(format!("unique_id ({}) is not the id of the unsigned transaction: lib={} ref={}", what, hex(id), hex(&w))));
+                }
+                Ok(())
+            }
+            None => Err(Failure::new("reference extraction failed".to_string())),
+        }
+    };
+    // a PSET from the generator may already carry a final_script_sig
+    check_ref(&p, &id0, ctx, "initial")?;
+    let steps = 1 + t.below(10);
+    let mut trace: Vec<&'static str> = Vec::new();
+    let mut finalizer = false;
+    for _ in 0..steps {
+        let op = t.below(N_OPS);
+        let Some(label) = apply_op(t, &mut p, op) else { continue };
+        trace.push(label);
+        if label.contains("finalizer") {
+            finalizer = true;
+        }
+        let id = match uid(&p)? {
+            Ok(i) => i,
+            Err(e) => return Err(Failure::new(format!("unique_id failed after {:?}: {}", trace, e))),
+        };
+        ctx.eval();
+        if id != id0 {
+            let sig_step = label == "set-final-script-sig(finalizer)" || p.inputs().iter().any(|i| i.final_script_sig.is_some());
+            if sig_step && ctx.is_known(KF_UID_SCRIPTSIG) {
+                ctx.class("known:unique-id-script-sig");
+                return Ok(());
+            }
+            return Err(Failure::new(format!("unique_id changed after `{}` (history {:?}): {} -> {}", label, trace, hex(&id0), hex(&id))));
+        }
+        check_ref(&p, &id, ctx, label)?;
+        ctx.class(&format!("op:{}", label));
+    }
+    // controls: identifying data does change the id
+    {
+        let mut q = p.clone();
+        let k = t.below(q.inputs().len());
+        let mut a = q.inputs()[k].previous_txid.to_byte_array();
+        a[t.below(32)] ^= 1;
+        q.inputs_mut()[k].previous_txid = elements::Txid::from_byte_array(a);
+        if let Ok(id) = uid(&q)? {
+            ensure!(id != id0, "unique_id unchanged after changing a previous txid");
+        }
+        if !p.outputs().is_empty() {
+            let mut q = p.clone();
+            let k = t.below(q.outputs().len());
+            let mut b = q.outputs()[k].script_pubkey.to_bytes();
+            b.push(0x51);
+            q.outputs_mut()[k].script_pubkey = Script::from(b);
+            if let Ok(id) = uid(&q)? {
+                ensure!(id != id0, "unique_id unchanged after changing an output script");
+            }
+        }
+        let mut q = p.clone();
+        let cur = q.global.tx_data.fallback_locktime.map_or(0, |l| l.to_consensus_u32());
+        if q.inputs().iter().all(|i| i.required_height_locktime.is_none() && i.required_time_locktime.is_none()) {
+            q.global.tx_data.fallback_locktime = Some(LockTime::from_consensus(cur ^ 1));
+            if let Ok(id) = uid(&q)? {
+                ensure!(id != id0, "unique_id unchanged after changing the lock time");
+            }
+        }
+        ctx.evals_n(3);
+    }
+    if finalizer {
+        ctx.class("history:with-finalizer-step");
+        ctx.nontrivial(&(hex(&id0), trace.clone()));
+    }
+    if ctx.wants_sample("history") && finalizer {
+        ctx.sample("history", || json!({"inputs": p.inputs().len(), "outputs": p.outputs().len(), "ops": trace, "unique_id": hex(&id0)}));
+    }
+    Ok(())
+}
+
+// ---- (d) lock-time selection, every kind assignment ------------------------------------------
+
+/// index -> (number of inputs 0..=4, base-4 assignment of {none,time,height,both}); 341 assignments
+fn decode_assignment(mut idx: u64) -> Vec<u8> {
+    let mut n = 0usize;
+    let mut count = 1u64;
+    while idx >= count {
+        idx -= count;
+        n += 1;
+        count *= 4;
+    }
+    (0..n).map(|k| ((idx >> (2 * k)) & 3) as u8).collect()
+}
+
+fn locktime_assignments(idx: u64, seed: u64, ctx: &mut Ctx) -> R {
+    let assign = decode_assignment(idx % 341);
+    let rounds = 40;
+    let rnd = seeded_bytes(seed, idx, 64 * rounds);
+    let mut t = Tape::new(&rnd);
+    for _ in 0..rounds {
+        let mut p = Pset::new_v2();
+        let mut reqs = Vec::new();
+        for kind in &assign {
+            let mut i = Input::default();
+            let time = gp::gen_time(&mut t);
+            let height = gp::gen_height(&mut t);
+            if kind & 1 != 0 {
+                i.required_time_locktime = Some(time);
+            }
+            if kind & 2 != 0 {
+                i.required_height_locktime = Some(height);
+            }
+            reqs.push((i.required_time_locktime.map(|x| x.to_consensus_u32()), i.required_height_locktime.map(|x| x.to_consensus_u32())));
+            p.add_input(i);
+        }
+        let fallback = if t.bool() { Some(t.edgy_u32()) } else { None };
+        p.global.tx_data.fallback_locktime = fallback.map(LockTime::from_consensus);
+        let got = guard::guard("locktime", 0, || p.locktime())?;
+        ctx.eval();
+        let want = ref_locktime(&reqs, fallback);
+        let both = !assign.is_empty() && assign.iter().filter(|k| **k != 0).all(|k| *k == 3) && assign.iter().any(|k| *k == 3);
+        match (&got, want) {
+            (Ok(l), RefLock::Ok(n)) => {
+                if l.to_consensus_u32() != n {
+                    if both && ctx.is_known(KF_LOCKTIME_PREF) {
+                        ctx.class("known:locktime-preference");
+                    } else {
+                        return Err(Failure::new(format!(
+                            "locktime() = {} but BIP370 prescribes {} for requirements (time, height) = {:?}, fallback {:?}",
+                            l.to_consensus_u32(),
+                            n,
+                            reqs,
+                            fallback
+                        )));
+                    }
+                }
+            }
+            (Err(_), RefLock::Conflict) => {}
+            (Ok(l), RefLock::Conflict) => return Err(Failure::new(format!("locktime() = {} although no kind is supported by all constraining inputs {:?}", l, reqs))),
+            (Err(e), RefLock::Ok(n)) => return Err(Failure::new(format!("locktime() fails ({}) although BIP370 prescribes {} for {:?}", e, n, reqs))),
+        }
+        let kinds: std::collections::BTreeSet<u8> = assign.iter().copied().filter(|k| *k != 0).collect();
+        if kinds.len() >= 2 {
+            ctx.nontrivial(&(idx, hex(&rnd[..8]), reqs.clone(), fallback));
+        }
+    }
+    ctx.class(&format!("inputs:{}", assign.len()));
+    if ctx.wants_sample("assignment") && assign.len() >= 3 {
+        ctx.sample("assignment", || json!({"kinds(1=time,2=height,3=both)": assign, "rounds": rounds}));
+    }
+    let _ = locktime::Height::ZERO;
+    Ok(())
+}
+
+fn repro_nonce_lost() -> bool {
+    let p = pool();
+    let tx = Transaction {
+        version: 2,
+        lock_time: LockTime::ZERO,
+        input: vec![],
+        output: vec![TxOut { asset: Asset::Explicit(p.assets[0]), value: Value::Explicit(5), nonce: Nonce::Confidential(p.pubkeys[0]), script_pubkey: Script::new(), witness: TxOutWitness::empty() }],
+    };
+    Pset::from_tx(tx.clone()).extract_tx().map_or(true, |b| b != tx)
+}
+fn repro_coinbase_pegin() -> bool {
+    let tx = Transaction { version: 2, lock_time: LockTime::ZERO, input: vec![TxIn::default()], output: vec![] };
+    Pset::from_tx(tx.clone()).extract_tx().map_or(true, |b| b != tx)
+}
+fn repro_locktime_pref() -> bool {
+    let mut p = Pset::new_v2();
+    let mut i = Input::default();
+    i.required_time_locktime = locktime::Time::from_consensus(600_000_000).ok();
+    i.required_height_locktime = locktime::Height::from_consensus(7).ok();
+    p.add_input(i);
+    p.locktime().map_or(true, |l| l.to_consensus_u32() != 7)
+}
+fn repro_uid_scriptsig() -> bool {
+    let mut p = Pset::new_v2();
+    p.add_input(Input::default());
+    let a = p.unique_id();
+    p.inputs_mut()[0].final_script_sig = Some(Script::from(vec![0x51]));
+    match (a, p.unique_id()) {
+        (Ok(x), Ok(y)) => x != y,
+        _ => true,
+    }
+}
 
 pub fn property() -> Property {
-    Property { id: "C08", rule: "", assumptions: &[], subs: vec![], known: vec![] }
+    Property {
+        id: "C08",
+        rule: "tx_roundtrip: well-formed transactions (C01 generator constrained: pegin witness only on pegins, issuance proofs \
+               only on issuances, non-null asset / value, nonce Null or key); oracle: extract_tx(from_tx(tx)) == tx. extraction: generated PSETs; extract_tx twice identical and equal to the \
+               harness's field-by-field reference extraction (flag bits stripped except on 0xffffffff, commitments preferred, \
+               defaults), Err exactly on lock-time conflicts. unique_id: histories of 1..10 updater / signer / finalizer \
+               operations from a table of 16 id-neutral field additions; after every step unique_id == initial == harness \
+               txid of the reference unsigned transaction (sequences 0, empty scriptSigs, BIP370 lock time); controls: \
+               prevout / output / lock-time changes change it. locktime: ALL 341 assignments of {none,time,height,both} to \
+               0..4 inputs x 40 value draws x fallback present/absent against the BIP370 reference. Non-trivial: tx with \
+               pegin / issuance / confidential output / witness; history with a finalizer step; assignment with >=2 \
+               different constraining kinds; distinct by encoding / history / values.",
+        assumptions: &["explicit 32-byte nonces are not sent through PSET conversions (the format has no field for them)"],
+        subs: vec![
+            Sub { name: "tx_roundtrip", kind: Kind::Tape { max_len: 3000, quick: 20_000, thorough: 600_000, f: tx_roundtrip } },
+            Sub { name: "extraction", kind: Kind::Tape { max_len: 6000, quick: 8_000, thorough: 240_000, f: extraction } },
+            Sub { name: "unique_id", kind: Kind::Tape { max_len: 7000, quick: 5_000, thorough: 150_000, f: unique_id_histories } },
+            Sub { name: "locktime", kind: Kind::Index { count: |t| t.pick(341, 341 * 30), exhaustive: true, f: locktime_assignments } },
+        ],
+        known: vec![
+            Known { key: KF_NONCE_LOST, what: "an explicit output carrying a receiver key in its nonce comes back from from_tx -> extract_tx with a Null nonce", repro: repro_nonce_lost },
+            Known { key: KF_COINBASE_PEGIN, what: "an input with index 0xffffffff comes back from from_tx -> extract_tx with is_pegin = true", repro: repro_coinbase_pegin },
+            Known { key: KF_LOCKTIME_PREF, what: "locktime() prefers the time lock when both kinds are possible (BIP370: height)", repro: repro_locktime_pref },
+            Known { key: KF_UID_SCRIPTSIG, what: "unique_id changes when final_script_sig is set", repro: repro_uid_scriptsig },
+        ],
+    }
 }
